@@ -299,7 +299,9 @@ impl<'a> Driver<'a> {
                 Some(Err(_)) => ("err", false, proj_none()),
                 None => ("panic", false, proj_none()),
             };
-            self.out.emit("rebuild", &format!("\"k\":\"{}\",\"eq\":{},\"st\":{}", k, eq, st));
+            // the builder image itself (from_board): must be the board's state, field by field
+            let fb = guard(|| crate::cand::bs_json(&BoardBuilder::from_board(b))).unwrap_or_else(|| "{\"b\":[],\"stm\":0,\"cr\":[-1,-1,-1,-1],\"epsq\":-1,\"hmc\":0,\"fmn\":0}".to_string());
+            self.out.emit("rebuild", &format!("\"k\":\"{}\",\"eq\":{},\"fb\":{},\"st\":{}", k, eq, fb, st));
         }
         if self.on("fresh") {
             self.obs_fresh(b);
